@@ -2421,6 +2421,12 @@ ure_exec(ure_dfa_t dfa, int flags, ucs2_t *text, unsigned long textlen,
 	     passed an accepting one. */
 	  me = acc_me;
 	  found = 1;
+	} else if (found == 0 && ms + 1 < textlen) {
+	  /* The attempt ran into the end of the text: an occurrence
+	     may begin inside it ("abc|b" in "ab"). */
+	  sp = text + ms + 1;
+	  stp = dfa->states;
+	  ms = me = ~0;
 	}
       } else {
 	/*
